@@ -566,6 +566,24 @@ class SStr(_SSeq):
             out.append(z3.If(z3.And(z3.UGE(c, 97), z3.ULE(c, 122)), c - 32, c))
         return mkstr(out)
 
+    def zfill(self, width):
+        n = len(self.els)
+        if width <= n:
+            return self
+        pad = [48] * (width - n)
+        # a leading sign stays in front of the padding (decided per path)
+        if n and _dec(_in_ranges(self.els[0], [(43, 43), (45, 45)])):
+            return mkstr([self.els[0]] + pad + list(self.els[1:]))
+        return mkstr(pad + list(self.els))
+
+    def rjust(self, width, fill=' '):
+        n = len(self.els)
+        return self if width <= n else mkstr([ord(fill)] * (width - n) + list(self.els))
+
+    def ljust(self, width, fill=' '):
+        n = len(self.els)
+        return self if width <= n else mkstr(list(self.els) + [ord(fill)] * (width - n))
+
     def isdigit(self):
         if not self.els:
             return False
